@@ -15,7 +15,7 @@ for d in sorted(os.listdir(os.path.join(VERIF, "seeded"))):
         if c.get("first_lines") and len(c["first_lines"]) > 1:
             mech = c["first_lines"][1].strip().split(" ")[0].replace("mechanism=", "")
     hist = m.get("history", "")
-    at_first = "yes" if hist.startswith("caught") else "no (extended)"
+    at_first = "yes" if hist.startswith(("caught", "detected", "flagged")) else "no (extended)"
     rows.append(f"| {d} | {first} | {mech} | {at_first} |")
 print("| change | what it is / what it needs | flagged as | caught by the check as it stood |")
 print("|---|---|---|---|")
